@@ -34,6 +34,7 @@ import (
 	"path"
 	"path/filepath"
 	"sort"
+	"strconv"
 	"strings"
 	"sync"
 	"syscall"
@@ -909,7 +910,9 @@ func TestVP_C23_OS(t *testing.T) {
 			if bytes.Contains(hay, []byte(vpC23CanaryContent)) {
 				t.Fatalf("response contains the content of a file outside Root; %s\n%s", ctxs(), vpC23Trunc(hay))
 			}
-			if bytes.Contains(bytes.ToLower(hay), []byte(vpC23CanaryName)) {
+			// (index pages and redirects echo the request path, so the name check only applies when the request
+			// itself did not spell a canary name)
+			if !vpC23MentionsCanary(&req) && bytes.Contains(bytes.ToLower(hay), []byte(vpC23CanaryName)) {
 				t.Fatalf("response names a file outside Root; %s\n%s", ctxs(), vpC23Trunc(hay))
 			}
 			if !obs.called {
@@ -968,6 +971,32 @@ func TestVP_C23_OS(t *testing.T) {
 			}
 		}
 	})
+}
+
+// vpC23MentionsCanary: does the request line or Host (also after tolerant percent-decoding) spell a canary name?
+func vpC23MentionsCanary(r *vpC23Req) bool {
+	raw := strings.ToLower(r.target + " " + r.host)
+	if strings.Contains(raw, vpC23CanaryName) {
+		return true
+	}
+	for i := 0; i < 3 && strings.Contains(raw, "%"); i++ {
+		var b strings.Builder
+		for j := 0; j < len(raw); j++ {
+			if raw[j] == '%' && j+2 < len(raw) {
+				if v, err := strconv.ParseUint(raw[j+1:j+3], 16, 8); err == nil {
+					b.WriteByte(byte(v))
+					j += 2
+					continue
+				}
+			}
+			b.WriteByte(raw[j])
+		}
+		raw = strings.ToLower(b.String())
+		if strings.Contains(raw, vpC23CanaryName) {
+			return true
+		}
+	}
+	return false
 }
 
 func vpC23Trunc(b []byte) string {
